@@ -32,14 +32,16 @@ Inductive tr :=
 (* behaviour variants: the current code and the defects repaired by fix commits *)
 Record variants := {
   retry_fallthrough : bool;   (* D1: retry exhaustion returns normally instead of raising *)
-  errcode_raises : bool       (* D5: ErrorCode(n) for n > 8 escapes decode_error *)
+  errcode_raises : bool;      (* D5: ErrorCode(n) for n > 8 escapes decode_error *)
+  late_recv : bool            (* D20: with no time left in a try, one more receive with a 1-tick time-out *)
 }.
-Definition current : variants := {| retry_fallthrough := false; errcode_raises := false |}.
+Definition current : variants := {| retry_fallthrough := false; errcode_raises := false; late_recv := false |}.
 
 Record cfg := {
   tmo : Z;                    (* retransmission interval in clock ticks, > 0 *)
   retries : nat;              (* max_retries *)
   wrap : option N;            (* block_counter_wrap_value *)
+  proc : Z;                   (* time the server needs to take one datagram off the socket, >= 0 *)
   v : variants
 }.
 
@@ -67,30 +69,33 @@ Definition classify (vr : variants) (d : list N) : cls :=
   end.
 
 (* ---- waiting for the acknowledgement of one send: _receive + inner loop ----
-   The head event is delivered iff its time is before now + socket timeout,
-   where the socket timeout is the time remaining to the deadline (at least one
-   tick); otherwise the time-out fires and the event stays queued. *)
+   _set_socket_timeout: when no time is left in this try the time-out fires at once
+   (before D20 was repaired: one more receive with a 1 ms time-out).  Otherwise the
+   head event is delivered iff its arrival time is before the deadline, and taking
+   it off the socket costs `proc` ticks; else the time-out fires at the deadline and
+   the event stays queued. *)
 Inductive outcome := OAcked | OTimeout | OPeerError | OInvalid | OInternal.
 
 Definition sock_timeout (now deadline : Z) : Z :=
   if 0 <? deadline - now then deadline - now else 1.
 
-Fixpoint await (vr : variants) (want : N) (now deadline : Z) (evs : list event)
+Fixpoint await (c : cfg) (want : N) (now deadline : Z) (evs : list event)
   : outcome * Z * list event * list tr :=
+  if negb (late_recv (v c)) && (deadline <=? now) then (OTimeout, now, evs, [TTimeout now]) else
   match evs with
   | [] => let t := now + sock_timeout now deadline in (OTimeout, t, [], [TTimeout t])
   | Recv t a d :: r =>
       let lim := now + sock_timeout now deadline in
       if t <? lim then
-        let now' := Z.max now t in
+        let now' := Z.max now t + proc c in
         if negb (a =? client)%N then
-          let '(o, n2, e2, l2) := await vr want now' deadline r in
+          let '(o, n2, e2, l2) := await c want now' deadline r in
           (o, n2, e2, TRecv t a d :: TSend now' a (PError 5) :: l2)
         else
-          match classify vr d with
+          match classify (v c) d with
           | CAck n =>
               if (n =? want)%N then (OAcked, now', r, [TRecv t a d])
-              else let '(o, n2, e2, l2) := await vr want now' deadline r in
+              else let '(o, n2, e2, l2) := await c want now' deadline r in
                    (o, n2, e2, TRecv t a d :: l2)
           | CPeerError => (OPeerError, now', r, [TRecv t a d])
           | CInvalid => (OInvalid, now', r, [TRecv t a d])
@@ -108,7 +113,7 @@ Fixpoint send_tries (c : cfg) (tries : nat) (p : pkt) (want : N) (now : Z) (evs 
   match tries with
   | O => (OAcked, now, evs, [])        (* while-condition false: loop ends normally *)
   | S k =>
-      let '(o, n1, e1, l1) := await (v c) want now (now + tmo c) evs in
+      let '(o, n1, e1, l1) := await c want now (now + tmo c) evs in
       match o with
       | OTimeout =>
           match k with
